@@ -16,6 +16,8 @@ R03.8 unification consumes evidence  : every judgement-emitting arm of merge fil
 R03.7 bounded recursion and ranges   : every recursive call-graph component has a reviewed (and, for seen-set cuts, verified)
       depth bound, and no range loop is scaled by an unclamped attacker-chosen constant (= C01 R01.3 / R01.4, re-evaluated).
 """
+import re
+
 from .. import facts as F
 from .. import tables
 from .. import terms as T
@@ -362,6 +364,20 @@ def check(fx, rep, tier):
                 charged = True
     rep.oblige(charged, "R03.4", "charge-min-gas", F.loc(ml["span"]), "the main loop does not charge the executed instruction's minimum gas on the success path")
 
+    # the gas that is charged is at least what the instruction costs on the EVM: `min_gas_cost` of the opcode type each byte
+    # disassembles to, evaluated statically for all 256 bytes, is not below the independent minimum-gas table
+    from ..gasmodel import gas_by_byte
+
+    gas, gprob = gas_by_byte(fx)
+    if rep.anchor("R03.4", gas is not None, "the byte table and the min_gas_cost methods (" + "; ".join(gprob) + ")"):
+        n_gas = 0
+        for brow in tables.read("evm_gas.tsv"):
+            x, mn, want = int(brow[0], 16), brow[1], int(brow[2])
+            got = gas.get(x)
+            n_gas += 1
+            fam = re.sub(r"\d+$", "n", mn) if re.match(r"^(PUSH|DUP|SWAP|LOG)\d+$", mn) else mn
+            rep.oblige(got is not None and got >= want, "R03.4", f"gas-table:{fam}", "-", (f"0x{x:02x} {mn}: the minimum gas charged is {got}, the instruction costs at least {want} on the EVM: a thread is under-charged and continues once the minimum gas it has really consumed exceeds the limit" if got is not None else f"0x{x:02x} {mn}: min_gas_cost is no longer a table over literals, constants and the opcode's fields; it cannot be compared with the EVM's minimum"), sample={"rule": "R03.4", "byte": f"{x:02x}", "mnemonic": mn, "charged": got, "evm_minimum": want} if x in (0x01, 0x54, 0xA2, 0xF0) else None)
+        rep.floor("R03.4", n_gas, 140, "bytes with a minimum-gas row")
     # ---------------------------------------------------------------- R03.5
     # the fork path must also consult the *thread's* visit count of the target (visited_instructions of the state)
     consults = False
